@@ -3620,66 +3620,27 @@ ERROR_VARIANTS = ["RdpError", "Io", "SslHandshakeError", "SslError", "ASN1Error"
 def _receive_loop_native(ctx):
     from vrun import _cut_fn
     txt = open(os.path.join(ctx["src"], "src", "bin", "mstsc-rs.rs")).read()
-    body = _cut_fn(txt, r"fn launch_rdp_thread<[^>]*>\s*\(", "launch_rdp_thread")
-    test = """
-#[cfg(test)]
-mod verif_replay_receive_loop_mod {
-    use super::*;
-    #[allow(unused_imports)]
-    use std::sync::{Arc, Mutex};
-    #[allow(unused_imports)]
-    use std::sync::mpsc::{channel, Sender, Receiver};
-    #[allow(unused_imports)]
-    use std::sync::atomic::{AtomicBool, Ordering};
-    #[allow(unused_imports)]
-    use std::thread::{self, JoinHandle};
-    #[allow(unused_imports)]
-    use std::io::{Cursor, Read, Write};
-    use std::time::Duration;
-    use model::link::{Link, Stream};
-    #[allow(unused_imports)]
-    use core::event::{RdpEvent, BitmapEvent};
-    #[allow(unused_imports)]
-    use model::error::{Error, RdpError, RdpErrorKind, RdpResult};
-    use core::{tpkt, x224, mcs, global};
-    use core::gcc::KeyboardLayout;
-    #[allow(dead_code)]
-    const APPLICATION_NAME: &str = "mstsc-rs";
-    /// environment stub: select(2) reports a closed or shut-down descriptor as readable, so the loop is never parked by it
-    fn wait_for_fd(_fd: usize) -> bool { true }
+    launch = _cut_fn(txt, r"fn launch_rdp_thread<[^>]*>\s*\(", "launch_rdp_thread")
+    wait = _cut_fn(txt, r'#\[cfg\(any\(target_os = "linux", target_os = "macos"\)\)\]\s*fn wait_for_fd\(', "wait_for_fd")
+    t = open(os.path.join(os.path.dirname(os.path.abspath(__file__)), "natives", "receive_end_modes.rs")).read()
+    t = t.replace("@WAIT@", wait.replace("\n", "\n    ")).replace("@LAUNCH@", launch.replace("\n", "\n    "))
+    return {"test": "verif_replay_receive_loop", "features": ["libc"], "files": {
+        "src/core/client.rs": t,
+        "src/core/x224.rs": "\n#[cfg(test)]\npub fn verif_new_x224<S: Read + Write>(transport: tpkt::Client<S>) -> Client<S> { Client::new(transport, Protocols::ProtocolSSL) }\n",
+        "src/core/global.rs": "\n#[cfg(test)]\nimpl Client { pub fn verif_enter_data_state(&mut self) { self.state = ClientState::Data; } }\n"}}
 
-    // ---- launch_rdp_thread, text-identical to src/bin/mstsc-rs.rs ----
-    %s
-    // ------------------------------------------------------------------
 
-    fn client(bytes: Vec<u8>) -> RdpClient<Cursor<Vec<u8>>> {
-        let x = x224::verif_new_x224(tpkt::Client::new(Link::new(Stream::Raw(Cursor::new(bytes)))));
-        RdpClient { mcs: mcs::Client::new(x), global: global::Client::new(1007, 1003, 800, 600, KeyboardLayout::US, "verif") }
-    }
-
-    #[test]
-    fn verif_replay_receive_loop() {
-        let cases: Vec<(&str, Vec<u8>)> = vec![
-            ("the peer closed the connection (end of stream)", vec![]),
-            ("the connection ended inside a frame", vec![3, 0, 0, 20, 2, 0xf0]),
-            ("a disconnect provider ultimatum", vec![3, 0, 0, 9, 2, 0xf0, 0x80, 0x21, 0x80]),
-            ("an undecodable PDU followed by the end of the stream", vec![3, 0, 0, 9, 2, 0xf0, 0x80, 0xff, 0xff]),
-        ];
-        for (what, bytes) in cases {
-            let (tx, _rx) = channel();
-            let handle = launch_rdp_thread(0, Arc::new(Mutex::new(client(bytes))), Arc::new(AtomicBool::new(true)), tx).unwrap();
-            let (dtx, drx) = channel();
-            thread::spawn(move || { let _ = handle.join(); let _ = dtx.send(()); });
-            assert!(drx.recv_timeout(Duration::from_secs(5)).is_ok(), "the receive thread is still running 5 s after {}", what);
-        }
-    }
-}
-""" % body.replace("\n", "\n    ")
-    helper = """
-#[cfg(test)]
-pub fn verif_new_x224<S: Read + Write>(transport: tpkt::Client<S>) -> Client<S> { Client::new(transport, Protocols::ProtocolSSL) }
-"""
-    return {"test": "verif_replay_receive_loop", "files": {"src/core/client.rs": test, "src/core/x224.rs": helper}}
+def _tls_coalesced_native(ctx):
+    from vrun import _cut_fn
+    txt = open(os.path.join(ctx["src"], "src", "bin", "mstsc-rs.rs")).read()
+    launch = _cut_fn(txt, r"fn launch_rdp_thread<[^>]*>\s*\(", "launch_rdp_thread")
+    wait = _cut_fn(txt, r'#\[cfg\(any\(target_os = "linux", target_os = "macos"\)\)\]\s*fn wait_for_fd\(', "wait_for_fd")
+    t = open(os.path.join(os.path.dirname(os.path.abspath(__file__)), "natives", "tls_coalesced.rs")).read()
+    t = t.replace("@WAIT@", wait.replace("\n", "\n    ")).replace("@LAUNCH@", launch.replace("\n", "\n    "))
+    return {"test": "verif_replay_tls_coalesced", "features": ["libc"], "files": {
+        "src/core/client.rs": t,
+        "src/core/x224.rs": "\n#[cfg(test)]\npub fn verif_new_x224<S: Read + Write>(transport: tpkt::Client<S>) -> Client<S> { Client::new(transport, Protocols::ProtocolSSL) }\n",
+        "src/core/global.rs": "\n#[cfg(test)]\nimpl Client { pub fn verif_enter_data_state(&mut self) { self.state = ClientState::Data; } }\n"}}
 
 
 def gui_receive_loop(ctx, mir, stats):
@@ -3721,9 +3682,7 @@ def gui_receive_loop(ctx, mir, stats):
     def released(p):
         tr = p.trace[p.trace.index(R):]
         return any(f.blocks[b.split(" ")[0]].t and f.blocks[b.split(" ")[0]].t["kind"] == "drop" and re.search(r"drop\(%s\)" % re.escape(guard), f.blocks[b.split(" ")[0]].t["text"]) for b in tr if b.split(" ")[0] in f.blocks)
-    looped = [(p, b) for p, b in se.looped if b == L]
-    if any(b != L for p, b in se.looped):
-        raise Inconclusive("ENCODING-FAILED: a second loop was found in the receive closure")
+    looped = list(se.looped)          # (path, loop head re-entered): the wait, or an inner drain loop around the read
     # O1: a path that re-enters the loop after a read must have seen Ok
     bad_variants = set()
     ok_continue = False
@@ -3762,7 +3721,7 @@ def gui_receive_loop(ctx, mir, stats):
     wdest, ldest = f.blocks[L].t["dest"], f.blocks[loads[0]].t["dest"]
     early = [p for p in se.finished if not after_read(p)]
     conds_ok = True
-    for p, _b in looped + [(q, None) for q in se.finished if after_read(q)]:
+    for p, _b in [(q, h) for q, h in looped if L in q.trace] + [(q, None) for q in se.finished if after_read(q)]:
         s = z3.Solver()
         for c in p.cond:
             s.add(c)
@@ -3778,9 +3737,56 @@ def gui_receive_loop(ctx, mir, stats):
                 "detail": "the client is locked and read only when wait_for_fd returned true and the shared flag is set; each of them false ends the thread (%d exits before the lock)" % len(early) if conds_ok and len(early) >= 2 else
                 "the loop can lock/read although wait_for_fd or the stop flag said no, or has no exit on them"})
     # O4: the guard is dropped on every path between the read and the next wait / the return
-    unreleased = [p.trace[-6:] for p, _b in looped if after_read(p) and not released(p)] + [p.trace[-6:] for p in se.finished if after_read(p) and not released(p)]
+    unreleased = [p.trace[-6:] for p, _b in looped if _b == L and after_read(p) and not released(p)] + [p.trace[-6:] for p in se.finished if after_read(p) and not released(p)]
     obs.append({"id": "receive-loop:lock-released-each-iteration", "ok": not unreleased, "functions": [f.name], "where": f.name, "needs_native": True, "native": None,
                 "detail": "the client mutex guard is dropped on every path from the read to the next wait_for_fd and to the end of the thread" if not unreleased else "paths keep the guard: %s" % unreleased[:2]})
+    # O6: the wait on the raw descriptor is entered after a successful read only when the TLS layer reports no buffered plaintext
+    coalesced = None
+    try:
+        coalesced = _tls_coalesced_native(ctx)
+    except Exception:
+        coalesced = None
+    drained, n_back = True, 0
+    why = ""
+    for p, hb in looped:
+        if hb != L or not after_read(p):
+            continue
+        dread = p.env.get(dkey)
+        if dread is not None:
+            s0 = z3.Solver()
+            for c in p.cond:
+                s0.add(c)
+            s0.add(dread == 0); stats.queries += 1
+            if s0.check() != z3.sat:
+                continue          # a path on which the read failed: the subject of the first obligation
+        n_back += 1
+        ridx = max(i for i, ev in enumerate(p.events) if ev[0] == "call" and re.search(r"RdpClient::<S>::read::<", ev[2]))
+        q = [(i, ev) for i, ev in enumerate(p.events) if i > ridx and ev[0] == "call" and re.search(r"RdpClient::<S>::buffered_read_size$", ev[2])]
+        if not q:
+            drained = False
+            why = "after a successful read the closure goes back to select(2) on the raw descriptor without asking the TLS stream whether decrypted data is still buffered"
+            continue
+        bd = q[-1][1][5]
+        dk = p.env.get("discr(%s)" % bd)
+        pk = next((v for k, v in p.env.items() if k.startswith("((%s as Ok).0:" % bd)), None)
+        if dk is None:
+            drained = False
+            why = "the result of buffered_read_size is not tested before the next wait"
+            continue
+        s = z3.Solver()
+        for c in p.cond:
+            s.add(c)
+        s.add(dk == 0)                       # Ok(n): n must have been tested and be 0 on this path; Err(_) may go back to the wait
+        if pk is not None:
+            s.add(pk != 0)
+        stats.queries += 1
+        if s.check() == z3.sat:
+            drained = False
+            why = "the closure can go back to select(2) although buffered_read_size() returned Ok(n) with n != 0"
+    okd = drained and n_back > 0
+    obs.append({"id": "receive-loop:no-wait-while-tls-has-buffered-data", "ok": okd, "functions": [f.name], "where": f.name, "needs_native": True, "native": None if okd else coalesced,
+                "detail": "every path from a successful read back to wait_for_fd has asked the TLS stream (buffered_read_size) and seen 0: PDUs that arrived in the same TLS record are read before the thread sleeps on the socket" if okd else
+                (why or "no path returns to the wait after a read") + ": a PDU that shares a TLS record with the previous one stays in the TLS buffer until the server sends something else"})
     # O5: callback: Bitmap -> exactly one send of that bitmap (unwrap on the result), other events -> no send
     sends = call_blocks(cb, r"mpsc::Sender::<BitmapEvent>::send$")
     ce = SymExec(cb, stats, loop_bound=0).run()
@@ -3851,3 +3857,95 @@ def disconnect_mapping(ctx, mir, stats):
     obs.append({"id": "mcs-read:ultimatum-never-data", "ok": ok2, "functions": [f.name], "where": f.name, "needs_native": False,
                 "detail": "no path with opcode 8 goes on to parse a send-data indication" if ok2 else "an ultimatum can be parsed as data"})
     return obs
+
+
+# --------------------------------------------------------------------------
+# C20 (library side): an error of the transport is handed up unchanged by every layer of the read path
+# --------------------------------------------------------------------------
+READ_ERROR_NATIVE = {"test": "verif_replay_read_errors_reach_the_caller", "files": {
+    "src/core/x224.rs": "\n#[cfg(test)]\npub fn verif_new_x224<S: Read + Write>(transport: tpkt::Client<S>) -> Client<S> { Client::new(transport, Protocols::ProtocolSSL) }\n",
+    "src/core/client.rs": """
+#[cfg(test)]
+mod verif_replay_read_errors_mod {
+    use super::*;
+    use std::io::Cursor;
+    use model::link::{Link, Stream};
+    use core::{tpkt, x224, mcs, global};
+    use core::gcc::KeyboardLayout;
+    fn client(bytes: Vec<u8>) -> RdpClient<Cursor<Vec<u8>>> {
+        let x = x224::verif_new_x224(tpkt::Client::new(Link::new(Stream::Raw(Cursor::new(bytes)))));
+        RdpClient { mcs: mcs::Client::new(x), global: global::Client::new(1007, 1003, 800, 600, KeyboardLayout::US, "verif") }
+    }
+    #[test]
+    fn verif_replay_read_errors_reach_the_caller() {
+        // end of stream, end of stream inside a frame, a disconnect provider ultimatum, an unknown MCS opcode, a bad X.224 header: RdpClient::read must say Err
+        let cases: Vec<(&str, Vec<u8>)> = vec![
+            ("end of stream", vec![]),
+            ("end of stream inside a frame", vec![3, 0, 0, 20, 2, 0xf0]),
+            ("disconnect provider ultimatum", vec![3, 0, 0, 9, 2, 0xf0, 0x80, 0x21, 0x80]),
+            ("unknown MCS opcode", vec![3, 0, 0, 9, 2, 0xf0, 0x80, 0xff, 0xff]),
+            ("bad X.224 data header", vec![3, 0, 0, 9, 2, 0xf0, 0x00, 0x68, 0x00]),
+        ];
+        for (what, bytes) in cases {
+            let r = client(bytes).read(|_e| {});
+            assert!(r.is_err(), "RdpClient::read returned Ok on {}", what);
+            if what == "disconnect provider ultimatum" {
+                match r { Err(Error::RdpError(e)) => assert!(e.kind() == RdpErrorKind::Disconnect, "the ultimatum is not reported as Disconnect"), _ => panic!("the ultimatum is not reported as an RDP error") }
+            }
+        }
+    }
+}
+"""}}
+
+
+def errors_propagate(specs):
+    """E3: on every path of the named function on which the named callee returned Err, the function itself returns through the
+    `?` residual (or an explicit Err) - never an Ok value. specs = [(function regex, callee regex, description)]."""
+    def fn(ctx, mir, stats):
+        obs = []
+        for fn_re, callee_re, what in specs:
+            f = find_fn(mir, fn_re)
+            se = SymExec(f, stats, loop_bound=0, max_paths=6000).run()
+            calls = call_blocks(f, callee_re)
+            if not calls:
+                raise Inconclusive("ENCODING-FAILED: %s does not call %s" % (f.name, callee_re))
+            swallowed, seen_err = [], 0
+            for p in se.finished:
+                for i, ev in calls_on(p.events, callee_re):
+                    dest = ev[5]
+                    # the discriminant the path took for this result: through Try::branch (dest of branch) or a direct match on the result
+                    keys = ["discr(%s)" % dest]
+                    for j, e2 in enumerate(p.events[i:i + 6]):
+                        if e2[0] == "call" and re.search(r" as Try>::branch$", e2[2]) and dest in " ".join(e2[4]):
+                            keys.append("discr(%s)" % e2[5])
+                    d = next((p.env[k] for k in keys if k in p.env), None)
+                    if d is None:
+                        continue
+                    s = z3.Solver()
+                    for c in p.cond:
+                        s.add(c)
+                    s.add(d == 1); stats.queries += 1
+                    if s.check() != z3.sat:
+                        continue
+                    s2 = z3.Solver()
+                    for c in p.cond:
+                        s2.add(c)
+                    s2.add(d == 0); stats.queries += 1
+                    if s2.check() == z3.sat:
+                        continue      # the result was not tested on this path
+                    seen_err += 1
+                    ret = None
+                    for e3 in p.events[i:]:
+                        if e3[0] == "assign" and e3[2].strip() == "_0":
+                            ret = e3[3]
+                        if e3[0] == "call" and e3[5] == "_0":
+                            ret = "CALL " + e3[2]
+                    if ret is None or re.match(r"^Result::<.*>::Ok\(", ret) or (ret.startswith("CALL ") and not re.search(r"FromResidual|from_residual|map_err", ret)):
+                        swallowed.append((f.blocks and p.trace[-5:], ret))
+            ok = seen_err > 0 and not swallowed
+            obs.append({"id": "%s:errors-of-%s" % (f.name[-40:], what), "ok": ok, "functions": [f.name], "where": f.name, "needs_native": True, "native": None if ok else READ_ERROR_NATIVE,
+                        "detail": "on every path on which %s failed, %s returns that failure (%d error paths)" % (what, f.name.split("::")[-1], seen_err) if ok else
+                        ("%s can return %s on a path on which %s failed: the caller (the receive loop) is not told that the session ended" % (f.name, swallowed[0][1] if swallowed else "?", what)) if swallowed else
+                        "no path of %s tests the result of %s" % (f.name, what)})
+        return obs
+    return fn
